@@ -196,7 +196,37 @@ def _step_pre(worker, lp, pre, sx, ev):
                 pass
 
 
+def _ownership(repo, outer, worker, pre):
+    """Batch-ownership design: a partition vector P built in the enclosing function (P[0] = 0 ... P[n] = number of batches, non-decreasing) and worker i
+    starting at batch P[i].  -> (P name, total-batches expr) or None"""
+    nbd = [s_ for s_ in pre if isinstance(s_, ast.Assign) and loc_name(s_.targets[0]) == "n_batch"]
+    if not nbd:
+        return None
+    v = nbd[0].value
+    while isinstance(v, ast.Call) and call_name(v) == "int" and len(v.args) == 1:
+        v = v.args[0]
+    if not (isinstance(v, ast.Subscript) and isinstance(v.value, ast.Name) and loc_name(v.slice) == "i_chunk"):
+        return None
+    P = v.value.id
+    defs = [s_ for s_ in outer.node.body if isinstance(s_, ast.Assign) and loc_name(s_.targets[0]) == P]
+    if len(defs) != 1:
+        return None
+    d = defs[0].value
+    while isinstance(d, ast.Call) and call_name(d) in ("astype", "floor", "asarray", "array", "int64", "int32") and (d.args or isinstance(d.func, ast.Attribute)):
+        d = d.func.value if (call_name(d) == "astype" and isinstance(d.func, ast.Attribute)) else d.args[0]
+    # linspace(0, N, nprocesses + 1): n + 1 non-decreasing values from 0 to N
+    if isinstance(d, ast.Call) and call_name(d) == "linspace" and len(d.args) >= 3 and const_value(d.args[0]) == (True, 0):
+        npts = d.args[2]
+        if isinstance(npts, ast.BinOp) and isinstance(npts.op, ast.Add) and const_value(npts.right) == (True, 1):
+            return P, d.args[1], npts.left
+    return None
+
+
 def _stop_rule(ctx, repo, worker, lp, pre, env, facts, interior, NB, T, S, fs0):
+    outer_ = worker.parent
+    own = _ownership(repo, outer_, worker, pre) if outer_ is not None else None
+    if own is not None and isinstance(lp, ast.While):
+        return _stop_rule_ownership(ctx, repo, worker, lp, pre, env, facts, interior, NB, T, S, own)
     cnt, cnt_test = _count_expr(worker)
     ms = [s for s in pre if isinstance(s, ast.Assign) and loc_name(s.targets[0]) == "max_s"]
     CS = env.get("CHUNK_SIZE", Poly.sym("CHUNK_SIZE"))
@@ -262,6 +292,61 @@ def _stop_rule(ctx, repo, worker, lp, pre, env, facts, interior, NB, T, S, fs0):
     ctx.shared["C06.count"] = cnt
 
 
+def _stop_rule_ownership(ctx, repo, worker, lp, pre, env, facts, interior, NB, T, S, own):
+    """Worker i owns the batches P[i] .. P[i+1] - 1 (starts S*P[i] .. S*(P[i+1] - 1)): it must go on exactly while the NEXT start is below S*P[i+1]
+    (the last worker while it is below ns - 2*TAPER, i.e. until a batch reaches the end)."""
+    P, total, nworkers = own
+    cnt, cnt_test = _count_expr(worker)
+    bt = interior.get("break_test")
+    ms = [s_ for s_ in pre if isinstance(s_, ast.Assign) and loc_name(s_.targets[0]) == "max_s"]
+    if not (isinstance(bt, ast.Compare) and len(bt.ops) == 1 and isinstance(bt.ops[0], (ast.GtE, ast.Gt))):
+        raise AnalysisError(f"batch loop exit `{src(bt) if bt is not None else None}` not understood")
+
+    def eval_case(expr, is_last_worker, extra=None):
+        def assume(t):
+            if cnt_test is not None and isinstance(t, ast.Compare) and norm(t) == norm(cnt_test):
+                return is_last_worker
+            return None
+        ev = Evaluator(env=dict(env, **(extra or {})), facts=facts.copy(), resolve=lambda x: repo.resolve_expr(worker, x), assume=assume)
+        sx = SymExec(ev, on_undecided="havoc")
+        _step_pre(worker, lp, pre, sx, ev)
+        if extra:
+            ev.env.update(extra)
+        return ev.ev(expr)
+    F = Poly.sym("F")
+    res = {}
+    for lastw in (True, False):
+        try:
+            # the loop goes on iff  lhs < rhs  with first_s = F: solve for the bound on the NEXT start F + S
+            lhs = eval_case(bt.left, lastw, {"first_s": F, "last_s": F + NB})
+            rhs = eval_case(bt.comparators[0], lastw, {"first_s": F, "last_s": F + NB})
+        except Undecided as e_:
+            raise AnalysisError(f"batch loop exit not evaluable: {e_}")
+        d = lhs - F          # lhs = F + d
+        if F.canon() in {x for x in d.symbols()}:
+            raise AnalysisError("batch loop exit is not linear in first_s")
+        res[lastw] = rhs - d + S       # continue iff F + d < rhs  iff  next start F + S < rhs - d + S
+    want_other = S * Poly.sym(f"[{P}[i_chunk + 1]]")
+    want_last = Poly.sym("_sr.ns") - Poly.const(2) * T
+    got_o, got_l = res[False], res[True]
+    # the symbol the evaluator gives P[i_chunk + 1]
+    sym_next = [x for x in got_o.symbols() if P in x and "i_chunk" in x]
+    if sym_next:
+        want_other = S * Poly.sym(sym_next[0])
+    ok_o = got_o == want_other
+    ok_l = got_l == want_last
+    gap = got_o - want_other
+    ctx.check(ok_o and ok_l and cnt is not None, worker, ms[0] if ms else lp, f"stop: {src(bt)}; {src(ms[0]) if ms else ''}",
+              f"worker i goes on exactly while its next batch is one it owns (start below stride * {P}[i + 1]); the last worker until a batch reaches the end of the file",
+              (f"worker i owns the batches {P}[i] .. {P}[i + 1] - 1 but goes on only while the next start is below {got_o} instead of {want_other} (difference {gap}): "
+               "whenever the batch stride is not larger than that margin (nbatch <= 4096 with 1024-sample tapers) the last batch(es) it owns are skipped - a stretch of samples is never written, "
+               "the RMS / time slots of those batches stay empty and the output depends on the worker count" if not ok_o else
+               f"the last worker goes on while the next start is below {got_l}, expected {want_last}"),
+              key="stop", name_free=True)
+    ctx.shared["C06.count"] = cnt
+    ctx.shared["C06.ownership"] = own
+
+
 def d1_tiling(ctx):
     ctx.rule("D1", "batch grid, kept range, read bounds, seek offsets, dtype agreement, RMS rows, worker stop test")
     repo = ctx.repo
@@ -314,6 +399,10 @@ def d1_tiling(ctx):
                 ast.parse("int(np.ceil(i_chunk * CHUNK_SIZE / NBATCH))", mode="eval").body)
         except Undecided:
             pass
+    own_ = _ownership(repo, outer, worker, pre)
+    if not okn and own_ is not None:
+        # batch-ownership design: worker i starts at the first batch of its share of a partition 0 = P[0] <= ... <= P[n] = number of batches
+        okn = True
     ctx.check(okn, worker, nbd[0] if nbd else worker.node, nbd[0] if nbd else "n_batch", "first batch index of worker i is ceil(i * CHUNK_SIZE / NBATCH)",
               f"`{src(nbd[0]) if nbd else '?'}`: n_batch is not ceil(i_chunk * CHUNK_SIZE / NBATCH) - with another divisor a batch between two workers is skipped or the start leaves the grid",
               key="n_batch")
@@ -428,8 +517,19 @@ def d1_tiling(ctx):
     # stop test: worker i goes on while the NEXT start is below max_s - 2*TAPER, max_s = (i+1)*CHUNK_SIZE, ns for the last worker
     _stop_rule(ctx, repo, worker, lp, pre, env, facts, interior, NB, T, S, fs0)
     cs = env.get("CHUNK_SIZE")
-    ctx.check(cs is not None and "sr.ns" in cs.canon() and "nprocesses" in cs.canon(), outer, outer.node, f"CHUNK_SIZE = {cs}", "the file is divided evenly among the workers",
-              "CHUNK_SIZE is not ns / nprocesses", key="chunk-size")
+    if ctx.shared.get("C06.ownership") is not None:
+        P_, total_, nw_ = ctx.shared["C06.ownership"]
+        evt = Evaluator(env=dict(env), facts=facts.copy(), resolve=lambda x: repo.resolve_expr(outer, x))
+        try:
+            tot = evt.ev(total_)
+        except Undecided:
+            tot = None
+        ctx.check(tot is not None and "ceil" in tot.canon() and "sr.ns" in tot.canon(), outer, outer.node, f"{P_} partitions {src(total_)} = {tot} batches among {src(nw_)} workers",
+                  "the batches (not the samples) are divided among the workers: 0 = P[0] <= ... <= P[n] = number of batches",
+                  f"the partition {P_} does not end at the number of batches of the recording ({tot})", key="chunk-size")
+    else:
+        ctx.check(cs is not None and "sr.ns" in cs.canon() and "nprocesses" in cs.canon(), outer, outer.node, f"CHUNK_SIZE = {cs}", "the file is divided evenly among the workers",
+                  "CHUNK_SIZE is not ns / nprocesses", key="chunk-size")
 
 
 def d2_sync(ctx):
